@@ -1639,6 +1639,175 @@ impl Ctx {
     }
 }
 
+/// A reader source that parks before handing out byte `gate_at` until the harness opens its gate (and says so).
+struct GatedReader {
+    data: Vec<u8>,
+    pos: usize,
+    gate_at: Option<usize>,
+    reached: std::sync::mpsc::Sender<()>,
+    gate: Arc<(Mutex<bool>, std::sync::Condvar)>,
+}
+impl Read for GatedReader {
+    fn read(&mut self, out: &mut [u8]) -> std::io::Result<usize> {
+        if let Some(g) = self.gate_at {
+            if self.pos >= g {
+                let _ = self.reached.send(());
+                let (m, cv) = &*self.gate;
+                let mut open = m.lock().unwrap();
+                let t0 = Instant::now();
+                while !*open && t0.elapsed() < Duration::from_secs(20) {
+                    open = cv.wait_timeout(open, Duration::from_millis(200)).unwrap().0;
+                }
+                self.gate_at = None;
+            }
+        }
+        let lim = self.gate_at.map(|g| g.min(self.data.len())).unwrap_or(self.data.len());
+        let n = out.len().min(lim - self.pos).min(5);
+        out[..n].copy_from_slice(&self.data[self.pos..self.pos + n]);
+        self.pos += n;
+        Ok(n)
+    }
+}
+
+/// schedules for three streams A, B, C of one Server: S = start the pull (it runs until its gate, if gated),
+/// R = open the gate and wait for the pull to end. A lower-case start = not gated (runs to its end at once).
+const GATE_SCHEDULES: &[&str] = &[
+    "SA SB RA sC RB",    // one finishes while another is mid-stream, a third opens (and ends) afterwards
+    "SA SB RA SC RB RC", // … the third parks mid-stream too; the older one goes on first
+    "SA SB RA SC RC RB", // … the newer one goes on first
+    "SA SB RB SC RA RC", // the later-opened one finishes first
+    "SA SB SC RA RB RC", // all three open, then finish in order (control)
+    "SA RA SB SC RC RB", // nothing overlaps the first (control)
+    "SA SB SC RB RA sA RC", // a fourth open (A again) while C is still mid-stream
+];
+
+impl Ctx {
+    /// `gate <i> <schedule#> <none|zstd> <puller> <chunk> <HA> <HB> <HC>`: three pulls of three different
+    /// resources from ONE real Server whose reader sources are gated, interleaved as the schedule says.
+    /// Each pull must give exactly its own resource's content (or fail and leave its destination alone).
+    fn exec_gate(&mut self, out: &mut Out, idx: &str, sched: usize, zstd: bool, puller: &str, chunk: usize, data: &[Vec<u8>; 3]) {
+        if should_stop(out) {
+            return;
+        }
+        let op = format!("gate {} {} {} {} {} {} {} {}", idx, sched, if zstd { "zstd" } else { "none" }, puller, chunk, hex(&data[0]), hex(&data[1]), hex(&data[2]));
+        out.begin(&op);
+        let (_, dir) = self.fresh();
+        let _ = std::fs::remove_dir_all(&dir);
+        std::fs::create_dir_all(&dir).unwrap();
+        let words: Vec<&str> = GATE_SCHEDULES[sched % GATE_SCHEDULES.len()].split(' ').collect();
+        // gates and "reached" signals per resource
+        let gates: Vec<Arc<(Mutex<bool>, std::sync::Condvar)>> = (0..3).map(|_| Arc::new((Mutex::new(false), std::sync::Condvar::new()))).collect();
+        let mut reached_rx = vec![];
+        let mut reached_tx = vec![];
+        for _ in 0..3 {
+            let (t, r) = std::sync::mpsc::channel();
+            reached_tx.push(Mutex::new(t));
+            reached_rx.push(r);
+        }
+        let gated_now: Arc<Mutex<[bool; 3]>> = Arc::new(Mutex::new([false; 3]));
+        let opts = StreamOpts { chunk_bytes: chunk, compression: if zstd { Compression::Zstd } else { Compression::None }, zstd_level: 3, session_depth: 1 };
+        let (d2, g2, gn2) = (data.clone(), gates.clone(), gated_now.clone());
+        let reached_tx = Arc::new(reached_tx);
+        let router = Router::new().with_reader_stream(
+            move |res: &str| {
+                let i = match res { "A" => 0, "B" => 1, "C" => 2, _ => return None };
+                let gated = gn2.lock().unwrap()[i];
+                Some(GatedReader { data: d2[i].clone(), pos: 0, gate_at: if gated { Some(d2[i].len() / 2) } else { None }, reached: reached_tx[i].lock().unwrap().clone(), gate: g2[i].clone() })
+            },
+            opts,
+        );
+        let server = Server::new(router);
+        let l = server.listen("127.0.0.1:0").expect("bind");
+        let addr = l.local_addr().unwrap();
+        std::thread::spawn(move || {
+            let _ = server.serve(l);
+        });
+        // one pull = one thread with its own client; result: Some(bytes it published / returned) or None (Err)
+        let start = |i: usize, n: usize, puller: String, dir: PathBuf| -> std::sync::mpsc::Receiver<Option<Vec<u8>>> {
+            let (tx, rx) = std::sync::mpsc::channel();
+            std::thread::spawn(move || {
+                let res = ["A", "B", "C"][i];
+                let dest = dir.join(format!("out-{res}-{n}.bin"));
+                let r: Option<Vec<u8>> = match puller.as_str() {
+                    "consume" => Client::connect(addr).ok().and_then(|c| repe::pull_consume(&c, res, |r| { let mut b = vec![]; r.read_to_end(&mut b)?; Ok(b) }).ok()),
+                    "fileasync" => {
+                        let rt = tokio::runtime::Builder::new_current_thread().enable_all().build().unwrap();
+                        rt.block_on(async { match AsyncClient::connect(addr).await { Ok(c) => repe::pull_to_file_async(&c, res, &dest).await.ok(), Err(_) => None } }).and_then(|_| std::fs::read(&dest).ok())
+                    }
+                    "trailer" => Client::connect(addr).ok().and_then(|c| repe::pull_to_file_trailer_verified(&c, res, &dest, 4, Vec::<u8>::new(), |_d: Vec<u8>, _t: &[u8]| Ok(())).ok()).and_then(|_| std::fs::read(&dest).ok()),
+                    _ => Client::connect(addr).ok().and_then(|c| repe::pull_to_file(&c, res, &dest).ok()).and_then(|_| std::fs::read(&dest).ok()),
+                };
+                // a failed pull must not have published anything
+                let r = if r.is_none() && dest.exists() { Some(b"!published-despite-error".to_vec()) } else { r };
+                let _ = tx.send(r);
+            });
+            rx
+        };
+        let mut running: Vec<Option<std::sync::mpsc::Receiver<Option<Vec<u8>>>>> = vec![None, None, None];
+        let mut results: Vec<(usize, Option<Option<Vec<u8>>>)> = vec![]; // (resource, None = never returned)
+        let mut nstart = 0;
+        for w in &words {
+            let i = match &w[1..] { "A" => 0, "B" => 1, _ => 2 };
+            match &w[..1] {
+                "S" | "s" => {
+                    let gated = &w[..1] == "S";
+                    gated_now.lock().unwrap()[i] = gated;
+                    *gates[i].0.lock().unwrap() = false;
+                    while reached_rx[i].try_recv().is_ok() {}
+                    if let Some(rx) = running[i].take() {
+                        results.push((i, rx.recv_timeout(Duration::from_secs(30)).ok()));
+                    }
+                    let rx = start(i, nstart, puller.to_string(), dir.clone());
+                    nstart += 1;
+                    if gated {
+                        // wait until the producer of this stream has parked mid-stream
+                        let _ = reached_rx[i].recv_timeout(Duration::from_secs(15));
+                        std::thread::sleep(Duration::from_millis(20));
+                        running[i] = Some(rx);
+                    } else {
+                        results.push((i, rx.recv_timeout(Duration::from_secs(30)).ok()));
+                    }
+                }
+                _ => {
+                    *gates[i].0.lock().unwrap() = true;
+                    gates[i].1.notify_all();
+                    if let Some(rx) = running[i].take() {
+                        results.push((i, rx.recv_timeout(Duration::from_secs(30)).ok()));
+                    }
+                }
+            }
+        }
+        let mut line = idx.to_string();
+        for (i, r) in &results {
+            let want: &[u8] = if puller == "trailer" { &data[*i][..data[*i].len() - 4] } else { &data[*i] };
+            match r {
+                None => {
+                    EXPIRIES.fetch_add(1, Ordering::Relaxed);
+                    out.oracle_fail(&format!("commit.gate.{puller}.call-never-returned"), &format!("the pull of resource {} did not return within 30 s", ["A", "B", "C"][*i]), &[op.clone()]);
+                    line.push_str(" | hung");
+                }
+                Some(None) => {
+                    out.oracle_fail(&format!("commit.gate.{puller}.err-on-complete-stream"), &format!("the pull of resource {} failed although its producer delivered everything", ["A", "B", "C"][*i]), &[op.clone()]);
+                    line.push_str(" | err");
+                }
+                Some(Some(b)) => {
+                    if b != want {
+                        out.oracle_fail(
+                            &format!("commit.gate.{puller}.published-not-own-content"),
+                            &format!("the pull of resource {} returned Ok with {} bytes ({}), its own complete content is {} bytes ({}) — streams interleaved on one Server as `{}`", ["A", "B", "C"][*i], b.len(), digest(b), want.len(), digest(want), GATE_SCHEDULES[sched % GATE_SCHEDULES.len()]),
+                            &[op.clone()],
+                        );
+                    }
+                    line.push_str(&format!(" | ok {}", digest(b)));
+                }
+            }
+        }
+        let _ = std::fs::remove_dir_all(&dir);
+        out.count(&format!("gate.schedule.{}", sched % GATE_SCHEDULES.len()));
+        out.case(&op, &line, true);
+    }
+}
+
 /// A random presentation style; one in four also puts observer threads on the destination.
 fn rand_style(rng: &mut Rng) -> u64 {
     let mut st = rng.next() & 0x7fffff;
@@ -1823,6 +1992,9 @@ struct FailingReader {
     calls: u64,
     kind: std::io::ErrorKind,
     interrupted_once: bool,
+    /// how much a `read` hands out before the true end: 0 = up to 7 bytes, 1 = one byte, 2 = a random short
+    /// count, 3 = everything up to the middle of the data, then the rest (`Read::chain` of two sources)
+    dribble: u8,
 }
 
 /// A value whose `Serialize` impl panics when it reaches element `at` (a dying producer body).
@@ -1877,8 +2049,14 @@ impl Read for FailingReader {
         if self.calls % 3 == 0 {
             return Err(std::io::Error::new(std::io::ErrorKind::Interrupted, "try again"));
         }
-        // small reads so that the sink sees many write sizes
-        let n = out.len().min(limit - self.pos).min(7);
+        // short reads before the true end (pipes, sockets, chained sources do this): never an end of input
+        let cap = match self.dribble {
+            1 => 1,
+            2 => 1 + (self.calls as usize * 2654435761 % 61),
+            3 => if self.pos < self.data.len() / 2 { self.data.len() / 2 - self.pos } else { usize::MAX },
+            _ => 7,
+        };
+        let n = out.len().min(limit - self.pos).min(cap.max(1));
         out[..n].copy_from_slice(&self.data[self.pos..self.pos + n]);
         self.pos += n;
         Ok(n)
@@ -1903,6 +2081,8 @@ struct Real {
     /// the kind of the `io::Error` the body fails with (when it does not panic). `Interrupted` is transient:
     /// returned once, then the source goes on (std's `io::copy` retries it) — the stream completes.
     ekind: std::io::ErrorKind,
+    /// read-size flavour of the reader source (see `FailingReader::dribble`)
+    dribble: u8,
 }
 
 impl Real {
@@ -1913,7 +2093,7 @@ impl Real {
 
 fn start_real(r: &Real, zstd: bool) -> SocketAddr {
     let opts = StreamOpts { chunk_bytes: r.chunk, compression: if zstd { Compression::Zstd } else { Compression::None }, zstd_level: r.level, session_depth: r.depth };
-    let (payload, fail, panics, slow, kind) = (r.payload.clone(), r.fail, r.panics, r.slow, r.ekind);
+    let (payload, fail, panics, slow, kind, dribble) = (r.payload.clone(), r.fail, r.panics, r.slow, r.ekind, r.dribble);
     let router = if r.kind == 3 {
         let v: Vec<f64> = payload.iter().map(|b| *b as f64 / 3.0).collect();
         Router::new().with_typed_value_stream(move |res: &str| (res == "blob").then(|| v.clone()), opts)
@@ -1947,7 +2127,7 @@ fn start_real(r: &Real, zstd: bool) -> SocketAddr {
             opts,
         )
     } else {
-        Router::new().with_reader_stream(move |res: &str| (res == "blob").then(|| FailingReader { data: payload.clone(), pos: 0, fail_at: fail, panics, slow, calls: 0, kind, interrupted_once: false }), opts)
+        Router::new().with_reader_stream(move |res: &str| (res == "blob").then(|| FailingReader { data: payload.clone(), pos: 0, fail_at: fail, panics, slow, calls: 0, kind, interrupted_once: false, dribble }), opts)
     };
     let server = Server::new(router);
     let l = server.listen("127.0.0.1:0").expect("bind");
@@ -2018,7 +2198,7 @@ impl Ctx {
         let op = format!(
             "real {} {} {} {} {} {} {}",
             idx,
-            format!("{}@l{}{}", ["reader", "writer", "value", "typed", "complex"][r.kind as usize], r.level, if r.slow { "@slow" } else { "" }),
+            format!("{}@l{}{}{}", ["reader", "writer", "value", "typed", "complex"][r.kind as usize], r.level, if r.slow { "@slow" } else { "" }, if r.dribble != 0 { format!("@d{}", r.dribble) } else { String::new() }),
             r.chunk,
             r.fail.map(|n| format!("{}{}{}", if r.panics { "p" } else { "" }, n, if r.panics || r.ekind == std::io::ErrorKind::Other { String::new() } else { format!("@{}", kind_name(r.ekind)) })).unwrap_or("-".into()),
             r.depth,
@@ -2608,7 +2788,7 @@ fn gen_and_run(args: &Args, out: &mut Out, ctx: &mut Ctx) {
                 let p = ps[(ki + prod as usize) % ps.len()];
                 let zstd = (ki + prod as usize) % 5 == 0;
                 let fail = Some([17usize, 16, 33, 0, 69][(ki + prod as usize) % 5]);
-                let r = Real { kind: prod, panics: false, chunk, fail, depth: ki % 5, payload: payload.clone(), level: 3, slow: false, ekind };
+                let r = Real { kind: prod, panics: false, chunk, fail, depth: ki % 5, payload: payload.clone(), level: 3, slow: false, ekind, dribble: (ki % 4) as u8 };
                 let (wire, dec) = real_wire(&r, zstd);
                 let sc = Script { puller: p, zstd, beve: false, open: Open::Ok, verify_ok: true, trailer: if p.has_trailer() { 8 } else { 0 }, dest: if ki % 2 == 0 { Dest::Old } else { Dest::None }, dec, wire, wfault: None, sync_fault: false, ws: false, verify_panics: false, verify_kind: 0, dfault: None, via_ps: false, style: 0, wl: None };
                 out.count(&format!("real.errorkind.{kname}"));
@@ -3190,7 +3370,7 @@ fn gen_and_run(args: &Args, out: &mut Out, ctx: &mut Ctx) {
             let zstd = bit(3);
             let kind: u8 = if bit(6) { 1 } else { 0 };
             let fail = if bit(5) { Some(17usize) } else { None };
-            let r = Real { kind, panics: fail.is_some() && bit(4), chunk: if bit(0) { 1 << 20 } else { 1 }, fail, depth: if bit(1) { 64 } else { 0 }, payload: rng.bytes(len), level: if bit(2) { 19 } else { -7 }, slow: bit(4), ekind: std::io::ErrorKind::Other };
+            let r = Real { kind, panics: fail.is_some() && bit(4), chunk: if bit(0) { 1 << 20 } else { 1 }, fail, depth: if bit(1) { 64 } else { 0 }, payload: rng.bytes(len), level: if bit(2) { 19 } else { -7 }, slow: bit(4), ekind: std::io::ErrorKind::Other, dribble: 0 };
             let (wire, dec) = real_wire(&r, zstd);
             let mut sc = Script { puller: p, zstd, beve: false, open: Open::Ok, verify_ok: true, trailer: if p.has_trailer() { if bit(5) { len } else { 0 } } else { 0 }, dest: if bit(1) { Dest::Old } else { Dest::None }, dec, wire, wfault: None, sync_fault: false, ws: false, verify_panics: false, verify_kind: 0, dfault: None, via_ps: false, style: 0, wl: None };
             sc.via_ps = p == Puller::File && bit(2);
@@ -3318,9 +3498,38 @@ fn gen_and_run(args: &Args, out: &mut Out, ctx: &mut Ctx) {
         for kind in [3u8, 4] {
             for zstd in [false, true] {
                 let p = if zstd { Puller::Beve } else { *rng.pick(&[Puller::File, Puller::FileAsync]) };
-                let r = Real { kind, panics: false, chunk: 16, fail: None, depth: 2, payload: rng.bytes(21), level: 3, slow: false, ekind: std::io::ErrorKind::Other };
+                let r = Real { kind, panics: false, chunk: 16, fail: None, depth: 2, payload: rng.bytes(21), level: 3, slow: false, ekind: std::io::ErrorKind::Other, dribble: 0 };
                 let (wire, dec) = real_wire(&r, zstd);
                 let sc = Script { puller: p, zstd, beve: true, open: Open::Ok, verify_ok: true, trailer: 0, dest: Dest::Old, dec, wire, wfault: None, sync_fault: false, ws: false, verify_panics: false, verify_kind: 0, dfault: None, via_ps: false, style: 0, wl: None };
+                ctx.exec_real(out, &next("r"), &r, &sc);
+            }
+        }
+    }
+
+    // (W) streams of ONE server interleaved in scripted orders (gated reader sources): each pull gets its own
+    //     resource, whatever opened, parked or finished around it; and reader sources that dribble
+    {
+        let pullers = ["file", "fileasync", "consume", "trailer"];
+        let mut j = 0usize;
+        for sched in 0..GATE_SCHEDULES.len() {
+            for zstd in [false, true] {
+                if zstd && !thorough && sched % 2 == 1 {
+                    continue;
+                }
+                let puller = pullers[j % 4];
+                j += 1;
+                let data = [rng.bytes(37 + j), rng.bytes(64 + 2 * j), rng.bytes(51 + j)];
+                ctx.exec_gate(out, &next("w"), sched, zstd, puller, 8, &data);
+            }
+        }
+        for dribble in 0..4u8 {
+            for (k, len) in [69usize, 9000, 20_000].into_iter().enumerate() {
+                let p = [Puller::File, Puller::FileAsync, Puller::Trailer, Puller::TrailerAsync, Puller::VerifiedAsync][(dribble as usize + k) % 5];
+                let zstd = (dribble as usize + k) % 3 == 0;
+                let r = Real { kind: 0, panics: false, chunk: [16usize, 4096, 8192][k], fail: None, depth: k, payload: rng.bytes(len), level: 3, slow: false, ekind: std::io::ErrorKind::Other, dribble };
+                let (wire, dec) = real_wire(&r, zstd);
+                let sc = Script { puller: p, zstd, beve: false, open: Open::Ok, verify_ok: true, trailer: if p.has_trailer() { 8 } else { 0 }, dest: if k % 2 == 0 { Dest::Old } else { Dest::None }, dec, wire, wfault: None, sync_fault: false, ws: false, verify_panics: false, verify_kind: 0, dfault: None, via_ps: false, style: 0, wl: None };
+                out.count(&format!("real.reader.dribble.{dribble}"));
                 ctx.exec_real(out, &next("r"), &r, &sc);
             }
         }
@@ -3364,7 +3573,7 @@ fn gen_and_run(args: &Args, out: &mut Out, ctx: &mut Ctx) {
                 };
                 for (kind, panics) in modes {
                 let fk = if kind == 2 { f.map(|n| n / 2) } else { f };
-                let r = Real { kind, panics, chunk, fail: fk, depth: rng.below(5) as usize, payload: if kind == 2 { payload[..payload.len() / 2].to_vec() } else { payload.clone() }, level: 3, slow: false, ekind: std::io::ErrorKind::Other };
+                let r = Real { kind, panics, chunk, fail: fk, depth: rng.below(5) as usize, payload: if kind == 2 { payload[..payload.len() / 2].to_vec() } else { payload.clone() }, level: 3, slow: false, ekind: std::io::ErrorKind::Other, dribble: 0 };
                 let (wire, dec) = real_wire(&r, zstd);
                 let mut sc = Script { puller: p, zstd, beve: kind == 2, open: Open::Ok, verify_ok: true, trailer: if p.has_trailer() { 8 } else { 0 }, dest: *rng.pick(&[Dest::None, Dest::Old]), dec, wire, wfault: None, sync_fault: false, ws: false, verify_panics: false, verify_kind: 0, dfault: None, via_ps: false, style: 0, wl: None };
                 if p.verifies() && f.is_none() && rng.chance(1, 3) {
@@ -3396,7 +3605,7 @@ fn gen_and_run(args: &Args, out: &mut Out, ctx: &mut Ctx) {
             let zstd = p == Puller::Beve || (rng.chance(1, 3) && (len > 0 || kind == 2));
             let data: Vec<u8> = rng.bytes(if kind == 2 { len.min(300) } else { len });
             let fail = if len > 0 && rng.chance(1, 2) { Some(*rng.pick(&[0usize, 1, chunk.min(len) - 1, chunk.min(len), len - 1]).min(&data.len().saturating_sub(1))) } else { None };
-            let r = Real { kind, panics: fail.is_some() && rng.chance(1, 2), chunk, fail, depth: *rng.pick(&[0usize, 1, 2, 64]), payload: data, level: *rng.pick(&[1, 3, 19, -7]), slow: len <= 30 && rng.chance(1, 3), ekind: KINDS[rng.below(KINDS.len() as u64 - 1) as usize].1 };
+            let r = Real { kind, panics: fail.is_some() && rng.chance(1, 2), chunk, fail, depth: *rng.pick(&[0usize, 1, 2, 64]), payload: data, level: *rng.pick(&[1, 3, 19, -7]), slow: len <= 30 && rng.chance(1, 3), ekind: KINDS[rng.below(KINDS.len() as u64 - 1) as usize].1, dribble: rng.below(4) as u8 };
             let (wire, dec) = real_wire(&r, zstd);
             let stream_len = if kind == 2 { panic_seq_bytes(&r.payload).len() } else { r.payload.len() };
             let mut sc = Script { puller: p, zstd, beve: kind == 2, open: Open::Ok, verify_ok: !rng.chance(1, 5), trailer: if p.has_trailer() { *rng.pick(&[0usize, 1, stream_len, stream_len + 1]) } else { 0 }, dest: *rng.pick(&[Dest::None, Dest::Old]), dec, wire, wfault: None, sync_fault: false, ws: false, verify_panics: false, verify_kind: 0, dfault: None, via_ps: false, style: 0, wl: None };
@@ -3629,6 +3838,13 @@ fn replay(ops: Vec<String>, out: &mut Out, ctx: &mut Ctx) {
                     }
                 }
             }
+            "gate" => {
+                if w.len() >= 9 {
+                    if let (Some(a), Some(b), Some(c)) = (unhex(w[6]), unhex(w[7]), unhex(w[8])) {
+                        ctx.exec_gate(out, &idx, w[2].parse().unwrap_or(0), w[3] == "zstd", w[4], w[5].parse().unwrap_or(8), &[a, b, c]);
+                    }
+                }
+            }
             "storm" | "wsstorm" => {
                 let real = if w[0] == "wsstorm" && w.len() > 5 { Some((w[2].parse().unwrap_or(1), w[3].parse().unwrap_or(1), w[4].parse().unwrap_or(16))) } else { None };
                 let mut k = if real.is_some() { 5 } else { 2 };
@@ -3719,7 +3935,7 @@ fn replay(ops: Vec<String>, out: &mut Out, ctx: &mut Ctx) {
             "real" => {
                 if w.len() > 7 {
                     if let Some((sc, _)) = Script::parse(&w[7..]) {
-                        let r = Real { level: w[2].split('@').find_map(|x| x.strip_prefix('l').and_then(|n| n.parse().ok())).unwrap_or(3), slow: w[2].contains("@slow"), kind: match w[2].split('@').next().unwrap_or("") { "writer" => 1, "value" => 2, "typed" => 3, "complex" => 4, _ => 0 }, panics: w[4].starts_with('p'), chunk: w[3].parse().unwrap_or(16), fail: w[4].trim_start_matches('p').split('@').next().and_then(|x| x.parse().ok()), ekind: w[4].split('@').nth(1).map(kind_of).unwrap_or(std::io::ErrorKind::Other), depth: w[5].parse().unwrap_or(4), payload: unhex(w[6]).unwrap_or_default() };
+                        let r = Real { dribble: w[2].split('@').find_map(|x| x.strip_prefix('d').and_then(|n| n.parse().ok())).unwrap_or(0), level: w[2].split('@').find_map(|x| x.strip_prefix('l').and_then(|n| n.parse().ok())).unwrap_or(3), slow: w[2].contains("@slow"), kind: match w[2].split('@').next().unwrap_or("") { "writer" => 1, "value" => 2, "typed" => 3, "complex" => 4, _ => 0 }, panics: w[4].starts_with('p'), chunk: w[3].parse().unwrap_or(16), fail: w[4].trim_start_matches('p').split('@').next().and_then(|x| x.parse().ok()), ekind: w[4].split('@').nth(1).map(kind_of).unwrap_or(std::io::ErrorKind::Other), depth: w[5].parse().unwrap_or(4), payload: unhex(w[6]).unwrap_or_default() };
                         ctx.exec_real(out, &idx, &r, &sc);
                     }
                 }
